@@ -594,9 +594,9 @@ func registerReflect(in *Interp) {
 		in.mustKind(r, "SetFloat", kFloat32, kFloat64)
 		f := a[1].(FloatV)
 		if kindOf(r.t) == kFloat32 {
-			*r.addr = FloatV{float64(float32(f.f)), 32}
+			*r.addr = FloatV{float64(float32(f.f)), 32, f.unk}
 		} else {
-			*r.addr = FloatV{f.f, 64}
+			*r.addr = FloatV{f.f, 64, f.unk}
 		}
 		return nil
 	}
@@ -628,7 +628,7 @@ func registerReflect(in *Interp) {
 	I["(reflect.Value).Float"] = func(in *Interp, fr *frame, a []Val) Val {
 		r := rv(a[0])
 		in.mustKind(r, "Float", kFloat32, kFloat64)
-		return FloatV{r.load().(FloatV).f, 64}
+		return FloatV{r.load().(FloatV).f, 64, r.load().(FloatV).unk}
 	}
 	I["(reflect.Value).Len"] = func(in *Interp, fr *frame, a []Val) Val {
 		r := rv(a[0])
